@@ -154,7 +154,7 @@ def main(argv=None):
     known = [k for k in load_known() if k.get('property') == prop]
     known_open = {k['mechanism']: k for k in known if k.get('status') == 'known'}
     lines, new_viol, known_seen = [], [], []
-    rdir = os.path.join(ROOT, 'replay', prop)
+    rdir = os.path.join(os.environ.get('VERIF_REPLAY_DIR') or os.path.join(ROOT, 'replay'), prop)
     for mech, v in sorted(viol.items()):
         if mech in known_open:
             known_seen.append(mech)
@@ -195,8 +195,9 @@ def main(argv=None):
         }
         if getattr(mod, 'EXHAUSTIVE', False):
             ev['coverage']['exhaustive'] = True
-        os.makedirs(os.path.join(ROOT, 'evidence'), exist_ok=True)
-        with open(os.path.join(ROOT, 'evidence', prop + '.json'), 'w') as f:
+        evdir = os.environ.get('VERIF_EVIDENCE_DIR') or os.path.join(ROOT, 'evidence')
+        os.makedirs(evdir, exist_ok=True)
+        with open(os.path.join(evdir, prop + '.json'), 'w') as f:
             json.dump(ev, f, indent=1, sort_keys=False)
             f.write('\n')
 
